@@ -23,12 +23,28 @@ vars == <<tree, content, hist>>
 
 Init == tree = NilN /\ content = [i \in KIdx |-> Absent] /\ hist = <<>>
 
+(* Sampling for universes whose graph is too large: a transition is kept iff a hash of its    *)
+(* WHOLE history falls into the class selected by Salt.  What is kept is still a transition  *)
+(* of the specification from a reachable state, with its complete history; the search below  *)
+(* a dropped transition is cut, so the kept ones form a random tree of depth MaxOps.         *)
+RECURSIVE HistHash(_, _)
+HistHash(h, acc) == IF h = <<>> THEN acc
+                    ELSE HistHash(Tail(h), (acc * 131 + Head(h)[2] * 17 + Head(h)[3] * 5
+                                            + (IF Head(h)[1] = "del" THEN 3 ELSE 1)) % 1000003)
+\* (IF, not a disjunction: TLC would enumerate every true disjunct of an action conjunct as a branch of its own)
+Keep(h) == IF Sample = 1 \/ Len(h) <= FullDepth THEN TRUE ELSE HistHash(h, Salt % 1000) % Sample = 0
+
+\* (evaluated first, so that the successor of a dropped transition is not even computed)
+Kept(op) == Keep(Append(hist, op))
+
 \* Trie.Update(key, value); v = 0 is the empty value (D1: it deletes)
-DoPut(i, v) == /\ tree' = Update(tree, i, v)
+DoPut(i, v) == /\ Kept(<<"put", i, v>>)
+               /\ tree' = Update(tree, i, v)
                /\ content' = [content EXCEPT ![i] = v]
                /\ hist' = Append(hist, <<"put", i, v>>)
 \* Trie.Delete(key)
-DoDel(i)    == /\ tree' = Remove(tree, i)
+DoDel(i)    == /\ Kept(<<"del", i, 0>>)
+               /\ tree' = Remove(tree, i)
                /\ content' = [content EXCEPT ![i] = Absent]
                /\ hist' = Append(hist, <<"del", i, 0>>)
 Next == /\ MaxOps = 0 \/ Len(hist) < MaxOps
@@ -45,17 +61,7 @@ GetOK     == \A i \in KIdx : Lookup(tree, i) = content[i]
 Shape     == WellFormedRoot(tree)
 Inv       == Canonical /\ GetOK /\ Shape
 
-(* Sampling for universes whose graph is too large: a transition is kept iff a hash of its    *)
-(* WHOLE history falls into the class selected by Salt.  What is kept is still a transition  *)
-(* of the specification from a reachable state, with its complete history; the search below  *)
-(* a dropped transition is cut, so the kept ones form a random tree of depth MaxOps.         *)
-RECURSIVE HistHash(_, _)
-HistHash(h, acc) == IF h = <<>> THEN acc
-                    ELSE HistHash(Tail(h), (acc * 131 + Head(h)[2] * 17 + Head(h)[3] * 5
-                                            + (IF Head(h)[1] = "del" THEN 3 ELSE 1)) % 1000003)
-Keep(h) == Sample = 1 \/ Len(h) <= FullDepth \/ HistHash(h, Salt % 1000) % Sample = 0
-
-Dump == Keep(hist') /\ PrintT(ToJson(IF Inline
+Dump == PrintT(ToJson(IF Inline
                       THEN [h |-> hist', c |-> content', t |-> J(tree'), p |-> Walk(tree'), sd |-> PrefixFree(content'),
                             sf |-> SeekAll(tree')]
                       ELSE [h |-> hist', c |-> content']))
